@@ -14,7 +14,7 @@ from stix2.patterns import (
 
 _COMPARISON_OP_ORDER = (
     "=", "!=", "<>", "<", "<=", ">", ">=",
-    "IN", "LIKE", "MATCHES", "ISSUBSET", "ISSUPERSET",
+    "IN", "LIKE", "MATCHES", "ISSUBSET", "ISSUPERSET", "EXISTS",
 )
 
 
